@@ -343,7 +343,7 @@ pub fn run(run: &Run) {
     let sh = shards_for(run.tier);
     let eop = prop_oneof![8 => (0u8..6).prop_map(EOp::Key), 3 => Just(EOp::Global), 1 => (1u8..16).prop_map(EOp::SleepMs)];
     let ecase = (ecfg(), prop_oneof![2 => Just(1u8), 1 => 2u8..=8], prop::collection::vec(eop, 1..len)).prop_map(|(cfg, threads, ops)| ECase { cfg, threads, ops });
-    run.prop("engine", run.tier.pick(400, 10_000), sh, ecase, run_engine);
+    run.prop("engine", run.tier.pick(400, 20000), sh, ecase, run_engine);
 
     let jcfg = prop_oneof![
         1 => Just(JCfg { default: true, m64: 1, m48: 5, m24: 3, gmax: 100, gburst: 10 }),
@@ -354,10 +354,10 @@ pub fn run(run: &Run) {
         2 => (0u8..2, 0u8..4, any::<u8>()).prop_map(|(a, b, h)| Addr::V4(a, b, h)),
     ];
     let jcase = (jcfg, prop_oneof![2 => Just(1u8), 1 => 2u8..=8], prop::collection::vec(addr, 1..len)).prop_map(|(cfg, threads, addrs)| JCase { cfg, threads, addrs });
-    run.prop("join", run.tier.pick(1500, 40_000), sh, jcase, run_join);
+    run.prop("join", run.tier.pick(1500, 80000), sh, jcase, run_join);
 
     let vcase = (ecfg(), prop::collection::vec((0u8..32, any::<u8>()), 1..len)).prop_map(|(cfg, ops)| VCase { cfg, ops });
-    run.prop("check_ip", run.tier.pick(300, 6000), sh, vcase, run_checkip);
+    run.prop("check_ip", run.tier.pick(300, 12000), sh, vcase, run_checkip);
 }
 
 pub fn replay(run: &Run, sub: &str, case: &Value) -> Option<bool> {
